@@ -127,7 +127,10 @@ def oracle_cli(res):
     original when that would be larger) must denote, read as a file, the program the source bytes denote"""
     import subprocess
     srcs = [b'#coding:latin-1\nx="' + b'\xe9' * 24 + b'"\n', b'# -*- coding: latin-1 -*-\nname  =  "caf\xe9 cr\xe8me"\nprint(name)\n', b'#!/usr/bin/python\n# vim: set fileencoding=iso-8859-15 :\ntitle  =  "\xa4 \xe9t\xe9"\n',
-            b'#coding:cp1252\r\ns="\x80\x99"\r\n', b'\xef\xbb\xbfs = "\xc3\xa9"\n', 's="\u00e9\u4e2d"\n'.encode('utf-8'), b'#coding:koi8-r\nz="\xc1\xc2\xd7"*3\n']
+            b'#coding:cp1252\r\ns="\x80\x99"\r\n', b'\xef\xbb\xbfs = "\xc3\xa9"\n', 's="\u00e9\u4e2d"\n'.encode('utf-8'), b'#coding:koi8-r\nz="\xc1\xc2\xd7"*3\n',
+            # legacy encodings whose bytes happen to be well-formed UTF-8 too: the cookie, not the look of the bytes, decides
+            b'# -*- coding: latin-1 -*-\nlabel  =  "\xc3\xa9\xc3\xa8"\nprint(len(label))\n', b'#coding:cp1251\nword  =  "\xd0\xb0\xd0\xb1\xd0\xb2"\nprint(len(word))\n',
+            b'#coding:cp1252\nquote  =  "\xe2\x80\x9c"\nprint(len(quote))\n', b'#coding:utf-7\nacute  =  "+AOk-"\nprint(len(acute))\n', b'#!/bin/sh\n#coding:latin-1\nb  =  "\xc2\xa0"\n']
     n = 0
     for src in srcs:
         try:
@@ -139,12 +142,12 @@ def oracle_cli(res):
             open(path, 'wb').write(src)
             env = dict(os.environ, PYTHONPATH=common.SRC)
             env.pop('PYMINIFY_FORCE_BEST_EFFORT', None)
-            for mode in ('stdout', 'output', 'inplace'):
+            for mode in ('stdout', 'output', 'inplace', 'stdin'):
                 open(path, 'wb').write(src)
-                argv = [common.PY, '-m', 'python_minifier', 'legacy.py'] + (['--output', 'out.py'] if mode == 'output' else ['--in-place'] if mode == 'inplace' else [])
-                p = subprocess.run(argv, cwd=d, env=env, stdout=subprocess.PIPE, stderr=subprocess.PIPE, timeout=120)
+                argv = [common.PY, '-m', 'python_minifier', '-' if mode == 'stdin' else 'legacy.py'] + (['--output', 'out.py'] if mode == 'output' else ['--in-place'] if mode == 'inplace' else [])
+                p = subprocess.run(argv, cwd=d, env=env, input=src if mode == 'stdin' else None, stdout=subprocess.PIPE, stderr=subprocess.PIPE, timeout=120)
                 n += 1
-                got = p.stdout if mode == 'stdout' else open(os.path.join(d, 'out.py' if mode == 'output' else 'legacy.py'), 'rb').read() if p.returncode == 0 else b''
+                got = p.stdout if mode in ('stdout', 'stdin') else open(os.path.join(d, 'out.py' if mode == 'output' else 'legacy.py'), 'rb').read() if p.returncode == 0 else b''
                 if p.returncode != 0:
                     res.add_violation('c16-cli-fails', 'pyminify exits %d on a valid legacy-encoded module' % p.returncode, {'source_bytes': repr(src), 'mode': mode, 'stderr': p.stderr.decode('utf-8', 'replace')[-300:]})
                     continue
